@@ -53,18 +53,19 @@ type RuleStat struct {
 
 // Ctx is the loaded program plus the obligation log.
 type Ctx struct {
-	globalRaw      map[*ssa.Global]Val                      // consteval values of immutable globals (fold.go)
-	callersOf      map[*ssa.Function]map[*ssa.Function]bool // static callers (rules_c09.go ownerName)
-	fnLookups      map[string]bool                          // every (package|name) asked of fn, for -anchors
-	renamed        map[string]*ssa.Function                 // anchors found by signature after a rename
-	extendsWalks   []*ssa.Function                          // loops that walk the chord table's extends links (loopmeasure.go)
-	extendsChecked bool
-	lexTabs        *lexTables // cached lexer tables (rules_tab2.go)
-	lexTabsErr     error
-	globalTabs     map[*ssa.Global]fval // immutable package-level tables seen by the folder (fold.go)
-	wm             *writerModel         // lazily built model of midix.MIDIWriter (emission.go)
-	RepoDir        string
-	Overlay        map[string][]byte // absolute path -> content (Go and non-Go)
+	degreeSearchFolded bool                                     // op.ScaleNote.GetDegree was decided on its whole domain (rules_wire.go)
+	globalRaw          map[*ssa.Global]Val                      // consteval values of immutable globals (fold.go)
+	callersOf          map[*ssa.Function]map[*ssa.Function]bool // static callers (rules_c09.go ownerName)
+	fnLookups          map[string]bool                          // every (package|name) asked of fn, for -anchors
+	renamed            map[string]*ssa.Function                 // anchors found by signature after a rename
+	extendsWalks       []*ssa.Function                          // loops that walk the chord table's extends links (loopmeasure.go)
+	extendsChecked     bool
+	lexTabs            *lexTables // cached lexer tables (rules_tab2.go)
+	lexTabsErr         error
+	globalTabs         map[*ssa.Global]fval // immutable package-level tables seen by the folder (fold.go)
+	wm                 *writerModel         // lazily built model of midix.MIDIWriter (emission.go)
+	RepoDir            string
+	Overlay            map[string][]byte // absolute path -> content (Go and non-Go)
 
 	Fset    *token.FileSet
 	Pkgs    map[string]*packages.Package // repo packages by import path
